@@ -24,8 +24,10 @@ def migrateTo {P : Type} (ms : Nat → P → P) (registered : List Nat) (to : Na
 
 /-! ### names (13.6) -/
 
+/-- `unicode.IsSpace` (what `strings.TrimSpace` removes) -/
 def isSpace (c : Char) : Bool := c == ' ' || c == '\t' || c == '\n' || c == '\r' || c.toNat == 0x0b || c.toNat == 0x0c ||
-  c.toNat == 0x85 || c.toNat == 0xA0
+  c.toNat == 0x85 || c.toNat == 0xA0 || c.toNat == 0x1680 || (0x2000 ≤ c.toNat && c.toNat ≤ 0x200a) ||
+  c.toNat == 0x2028 || c.toNat == 0x2029 || c.toNat == 0x202f || c.toNat == 0x205f || c.toNat == 0x3000
 def trimSpace (s : List Char) : List Char := ((s.dropWhile isSpace).reverse.dropWhile isSpace).reverse
 
 /-- the migration's `truncate` guarded by its length test (on characters; names are ASCII by the
